@@ -26,11 +26,13 @@ EXTENDS Naturals, Sequences, FiniteSets, TLC, Json, IOUtils
 Depth == IF "DEPTH" \in DOMAIN IOEnv THEN atoi(IOEnv.DEPTH) ELSE 4
 MaxI  == IF "MAXI" \in DOMAIN IOEnv THEN atoi(IOEnv.MAXI) ELSE 2
 MaxB  == 2
+MaxQuiet == IF "MAXQUIET" \in DOMAIN IOEnv THEN atoi(IOEnv.MAXQUIET) ELSE 2   \* longest run of operations that change nothing
 Bodies == {"all", "some", "none", "ierr", "raise", "braise", "new"}
 
-VARIABLES kind, body, st, out, items, active, runs, log, cur, hist
-vars == <<kind, body, st, out, items, active, runs, log, cur, hist>>
-(* st[b]  : "pending" | "flushing" | "flushed" | "cancelled"
+VARIABLES kind, body, pre, st, out, items, active, runs, log, cur, hist
+vars == <<kind, body, pre, st, out, items, active, runs, log, cur, hist>>
+(* pre    : number of requests already made (items of batch 1) when the history starts: 0 or 2
+   st[b]  : "pending" | "flushing" | "flushed" | "cancelled"
    out[b] : "none" while unfinished, "ok", or the code of the flush / cancellation error
    items[b] : sequence of item outcomes;  active : the batch new items join;  runs[b] : executions of the flush body
    log    : every completion announcement so far, in order: [k |-> "item"|"batch", b, i]
@@ -60,7 +62,8 @@ BodySets(bd, b, i) ==
 BodyEnds(bd) == CASE bd = "raise" -> "fe" [] bd = "braise" -> "fb" [] OTHER -> "ok"
 
 Init == /\ \E kb \in ({"own"} \X Bodies) \cup {<<"debug", "all">>} : kind = kb[1] /\ body = kb[2]
-        /\ st = <<"pending">> /\ out = <<"none">> /\ items = << <<>> >> /\ runs = <<0>> /\ active = 1
+        /\ pre \in {0, 2}
+        /\ st = <<"pending">> /\ out = <<"none">> /\ items = << [j \in 1..pre |-> Unset] >> /\ runs = <<0>> /\ active = 1
         /\ log = <<>> /\ cur = NoCur /\ hist = <<>>
 
 (* body executions are observable on the harness's own subclass only *)
@@ -78,15 +81,18 @@ SwitchFrom(b, newst) ==
 Grow(f, b, x, fresh) == IF active = b THEN Append([f EXCEPT ![b] = x], fresh) ELSE [f EXCEPT ![b] = x]
 
 (* Operations that change nothing (reads, and flush / cancel / direct construction on a finished batch) commute
-   in the model, so consecutive ones are explored in one canonical order only (strictly increasing rank); every
-   such operation is still tried in every reachable state. *)
+   in the model, so consecutive ones are explored in one canonical order only (strictly increasing rank) and in runs of at
+   most MaxQuiet; every such operation is still tried in every reachable state. *)
 OpRank(o) == CASE o = "flush" -> 1 [] o = "cancel" -> 2 [] o = "cancel_e" -> 3 [] o = "direct" -> 4
                [] o = "bvalue" -> 5 [] o = "berror" -> 6 [] o = "ivalue" -> 7 [] o = "query" -> 8 [] OTHER -> 0
 Rank(o, b, i) == OpRank(o) * 100 + b * 10 + i
+Changes(l) == l.o = "add" \/ l.a # <<>>          \* the recorded operation changed the state
 InOrder(o, b, i) ==
   IF hist = <<>> THEN TRUE
   ELSE LET l == hist[Len(hist)]
-       IN IF l.o = "add" THEN TRUE ELSE IF l.a # <<>> THEN TRUE ELSE Rank(l.o, l.b, l.i) < Rank(o, b, i)
+       IN IF Changes(l) THEN TRUE
+          ELSE IF Len(hist) >= MaxQuiet /\ (\A q \in (Len(hist) - MaxQuiet + 1)..Len(hist) : ~Changes(hist[q])) THEN FALSE
+          ELSE Rank(l.o, l.b, l.i) < Rank(o, b, i)
 
 (* ---- operations ---- *)
 
@@ -94,12 +100,12 @@ InOrder(o, b, i) ==
 AddItem == /\ Idle /\ Len(items[active]) < MaxI
            /\ items' = [items EXCEPT ![active] = Append(@, Unset)]
            /\ hist' = Append(hist, Rec("add", 0, 0, <<"joined", active, Len(items[active]) + 1>>, <<>>))
-           /\ UNCHANGED <<kind, body, st, out, active, runs, log, cur>>
+           /\ UNCHANGED <<kind, body, pre, st, out, active, runs, log, cur>>
 
 (* constructing an item directly on a finished batch fails *)
 Direct(b) == /\ Idle /\ Finished(b) /\ InOrder("direct", b, 0)
              /\ hist' = Append(hist, Rec("direct", b, 0, <<"raised", "AssertionError">>, <<>>))
-             /\ UNCHANGED <<kind, body, st, out, items, active, runs, log, cur>>
+             /\ UNCHANGED <<kind, body, pre, st, out, items, active, runs, log, cur>>
 
 (* flush(), item.value(), batch.value(), batch.error() on a pending batch all start the one and only flush *)
 FlushSwitch(o, b, i) ==
@@ -107,7 +113,7 @@ FlushSwitch(o, b, i) ==
   /\ SwitchFrom(b, "flushing")
   /\ out' = Grow(out, b, out[b], "none") /\ items' = Grow(items, b, items[b], <<>>) /\ runs' = Grow(runs, b, runs[b], 0)
   /\ cur' = [o |-> o, b |-> b, i |-> i, stage |-> "body", mb |-> 0, mi |-> 0]
-  /\ UNCHANGED <<kind, body, log, hist>>
+  /\ UNCHANGED <<kind, body, pre, log, hist>>
 
 FlushBody ==
   /\ cur # NoCur /\ cur.stage = "body"
@@ -124,7 +130,7 @@ FlushBody ==
            ELSE /\ items' = [items EXCEPT ![b] = mine]
                 /\ cur' = [cur EXCEPT !.stage = "end"]
         /\ log' = log \o ann
-  /\ UNCHANGED <<kind, body, st, out, active, hist>>
+  /\ UNCHANGED <<kind, body, pre, st, out, active, hist>>
 
 FlushEnd ==
   /\ cur # NoCur /\ cur.stage = "end"
@@ -146,13 +152,13 @@ FlushEnd ==
         /\ st' = [st EXCEPT ![b] = "flushed"] /\ out' = [out EXCEPT ![b] = e]
         /\ hist' = Append(hist, RecN(cur.o, b, cur.i, r, a, runs[b]))
         /\ cur' = NoCur
-  /\ UNCHANGED <<kind, body, active, runs>>
+  /\ UNCHANGED <<kind, body, pre, active, runs>>
 
 (* flush() on a batch that is not pending: the body must not run again; BatchingError after a flush *)
 FlushAgain(b) ==
   /\ Idle /\ Finished(b) /\ InOrder("flush", b, 0)
   /\ hist' = Append(hist, Rec("flush", b, 0, IF st[b] = "flushed" THEN <<"raised", "BatchingError">> ELSE <<"any">>, <<>>))
-  /\ UNCHANGED <<kind, body, st, out, items, active, runs, log, cur>>
+  /\ UNCHANGED <<kind, body, pre, st, out, items, active, runs, log, cur>>
 
 (* cancel(): never raises; completes every item with the cancellation error, then the batch; no-op when finished *)
 Cancel(b, e) ==
@@ -167,18 +173,18 @@ Cancel(b, e) ==
              /\ hist' = Append(hist, Rec(o, b, 0, <<"ok">>, [j \in 1..n |-> IEntry(b, j, e)] \o <<BEntry(b, e)>>))
         ELSE /\ hist' = Append(hist, Rec(o, b, 0, <<"ok">>, <<>>))
              /\ UNCHANGED <<st, out, items, active, runs, log>>
-  /\ UNCHANGED <<kind, body, cur>>
+  /\ UNCHANGED <<kind, body, pre, cur>>
 
 (* reads on a finished batch / an item of a finished batch report the recorded outcome and change nothing *)
 ItemValueDone(b, i) ==
   /\ Idle /\ Finished(b) /\ InOrder("ivalue", b, i)
   /\ hist' = Append(hist, Rec("ivalue", b, i, <<items[b][i].k, items[b][i].c>>, <<>>))
-  /\ UNCHANGED <<kind, body, st, out, items, active, runs, log, cur>>
+  /\ UNCHANGED <<kind, body, pre, st, out, items, active, runs, log, cur>>
 BatchReadDone(o, b) ==
   /\ Idle /\ Finished(b) /\ InOrder(o, b, 0)
   /\ hist' = Append(hist, Rec(o, b, 0, IF o = "berror" THEN <<"errq", out[b]>>
                                        ELSE IF out[b] = "ok" THEN <<"ok">> ELSE <<"err", out[b]>>, <<>>))
-  /\ UNCHANGED <<kind, body, st, out, items, active, runs, log, cur>>
+  /\ UNCHANGED <<kind, body, pre, st, out, items, active, runs, log, cur>>
 
 (* is_flushed, is_cancelled, is_empty, is_computed *)
 TF(x) == IF x THEN "t" ELSE "f"
@@ -189,7 +195,7 @@ Query(b) ==
          ca == IF p THEN "f" ELSE IF st[b] = "cancelled" THEN "t" ELSE IF out[b] = "ok" THEN "f" ELSE "any"
          em == IF p THEN TF(Len(items[b]) = 0) ELSE "any"
      IN hist' = Append(hist, Rec("query", b, 0, <<"q", fl, ca, em, TF(~p)>>, <<>>))
-  /\ UNCHANGED <<kind, body, st, out, items, active, runs, log, cur>>
+  /\ UNCHANGED <<kind, body, pre, st, out, items, active, runs, log, cur>>
 
 Next == \/ AddItem \/ FlushBody \/ FlushEnd
         \/ \E b \in Targets :
@@ -235,5 +241,6 @@ ActiveMovedBeforeBody == cur # NoCur => /\ active # cur.b /\ st[active] = "pendi
                                         /\ cur.mb # 0 => cur.mb # cur.b /\ st[cur.mb] = "pending"
 ActiveIsPending == st[active] = "pending" /\ \A b \in Batches : st[b] = "pending" => b = active
 
-Export == (Len(hist) = Depth /\ cur = NoCur) => PrintT(ToJson([kind |-> kind, body |-> body, h |-> hist]))
+(* every maximal history is exported: full length, or no operation left to try *)
+Export == (cur = NoCur /\ ~ENABLED Next) => PrintT(ToJson([kind |-> kind, body |-> body, pre |-> pre, h |-> hist]))
 =============================================================================
